@@ -83,11 +83,13 @@ def run_case(rng, idx, tier):
 
 
 # --------------------------------------------------------------------------------------------
-def _queries(sA, sB, want_points):
-    """executes all queries on freshly built colliders; returns dict name -> value (or exception marker)"""
+def _queries(sA, sB, want_points, objects=None):
+    """executes all queries on freshly built colliders (or on the given collider objects); returns dict name -> value
+    (or exception marker)"""
     from distance3d import gjk, mpr, epa
     out = {}
-    A, B = pairs.build_pair(sA, sB)
+    A, B = objects if objects is not None else pairs.build_pair(sA, sB)
+    out["_objects"] = (A, B)
 
     def run(name, f):
         try:
@@ -139,6 +141,11 @@ def _colliders(rng, idx):
         "moved": (O.moved(sA, G), O.moved(sB, G), G, 1.0, False),
         "scaled": (O.scaled(sA, sc), O.scaled(sB, sc), np.eye(4), sc, False),
     }
+    # the same rigid motion applied the way a simulation does it: update_pose on the collider objects that have
+    # already answered the base queries
+    bA = sA["base"] if sA["kind"] == "margin" else sA; bB = sB["base"] if sB["kind"] == "margin" else sB
+    if sB is not sA and gen.target_pose(bA) is not None and gen.target_pose(bB) is not None:
+        variants["moved-by-update"] = (O.moved(sA, G), O.moved(sB, G), G, 1.0, False)
     viol = []; worst = {}
     ev = {"collider_scenes": 1, "scalar_comparisons": 0, "boolean_comparisons": 0, "point_comparisons": 0}
     names = (O.name(sA), O.name(sB))
@@ -155,7 +162,19 @@ def _colliders(rng, idx):
         if vA is vB and not (sA is sB):
             pass
         oa, ob, Lv = pairs.scene(vA, vB, k=1e-5)
-        var = _queries(vA, vB, True)
+        if vname == "moved-by-update":
+            objs = base["_objects"]
+            try:
+                for ob_, sp_ in zip(objs, (vA, vB)):
+                    gen.apply_pose(ob_, gen.target_pose(sp_["base"] if sp_["kind"] == "margin" else sp_), rng)
+            except Exception as e:  # noqa: BLE001
+                viol.append({"key": {"variant": vname, "kind": "update_pose-raised", "exc": type(e).__name__}, "err": None,
+                             "msg": "update_pose raised %s: %s" % (type(e).__name__, str(e)[:160])})
+                continue
+            ev["moved_by_update_variants"] = ev.get("moved_by_update_variants", 0) + 1
+            var = _queries(vA, vB, True, objects=objs)
+        else:
+            var = _queries(vA, vB, True)
         key0 = {"variant": vname, "cls": cls.split("+")[0]}
 
         def exc(x):
@@ -234,7 +253,8 @@ def _colliders(rng, idx):
 
 # --------------------------------------------------------------------------------------------
 def _primitives(rng, idx):
-    name, fname, kwargs, sc_, p1, p2 = c10.make_case(rng, idx // 10 * 7 + idx % 10)
+    # primitive cases are idx % 10 in {7, 8, 9}: number them consecutively so that every function is visited
+    name, fname, kwargs, sc_, p1, p2 = c10.make_case(rng, (idx // 10) * 3 + (idx % 10) - 7)
     viol = []; worst = {}
     ev = {"primitive_scenes": 1, "scalar_comparisons": 0, "boolean_comparisons": 0, "point_comparisons": 0}
     rec = {"cls": "primitives|%s" % name, "nontrivial": True, "sig": repr((name, p1.describe(), p2.describe())),
@@ -242,6 +262,9 @@ def _primitives(rng, idx):
     if name in SKIP_FN or prims.has_sliver(p1, p2) or prims.in_band(p1, p2):
         rec.update(events=ev, viol=viol, worst=worst, inconcl=["function / configuration excluded (known-finding mechanism or epsilon band)"])
         return rec
+    if p1.kind == "point" and p2.convex and p2.bounded and rng.random() < 0.25:
+        # query point inside / on the second primitive (distance 0): its projection is the point itself
+        p1 = prims.rebuild("point", (prims.some_point_of(p2, rng),))
     # bring the scene near the origin
     c = p1.orc.center()
     p1 = prims.translated(p1, -c); p2 = prims.translated(p2, -c)
@@ -277,5 +300,23 @@ def _primitives(rng, idx):
         if not e <= tol_k:
             viol.append({"key": {"variant": vname, "query": name, "kind": "scalar-differs"}, "err": float(e),
                          "msg": "%s: base d=%.9g (x %.4g), %s variant d=%.9g: differs by %.3g of (L+L')" % (name, float(base[0]), f, vname, float(res[0]), e)})
+        # returned points move with the scene where the optimum is unique: the projection of a point on a convex
+        # primitive always is (also for points inside it); other pairs only in generic placements
+        convex2 = bool(p2.convex() if callable(getattr(p2, "convex", None)) else getattr(p2, "convex", True))
+        # (two extended primitives that intersect or are parallel share many optimal pairs: need d > 0 and a bounded one)
+        unique = (p1.kind == "point" and convex2) or (
+            not sc_.structured and not sc_.contact and float(base[0]) > 1e-6 * L0 and (p1.bounded or p2.bounded)
+            and not prims.in_band(p1, p2, -1.0, 1e-2))     # no (nearly or exactly) parallel / perpendicular directions
+        if unique and not swapped and name != "line_to_circle":
+            Gm = G if vname == "moved" else np.eye(4)
+            pb_ = [np.asarray(x, float) for x in base[1:3] if isinstance(x, np.ndarray) and np.shape(x) == (3,)]
+            pv_ = [np.asarray(x, float) for x in res[1:3] if isinstance(x, np.ndarray) and np.shape(x) == (3,)]
+            if len(pb_) == len(pv_) and pb_:
+                ev["point_comparisons"] += 1
+                ep = max(float(np.linalg.norm(b_ - f * (Gm[:3, :3] @ a_ + Gm[:3, 3]))) for a_, b_ in zip(pb_, pv_)) / (L0 * f + Lv)
+                worst["%s points %s" % (name, vname)] = ep / 1e-6
+                if not ep <= 1e-6:
+                    viol.append({"key": {"variant": vname, "query": name, "kind": "points-do-not-follow"}, "err": float(ep),
+                                 "msg": "%s: the returned points of the %s variant are %.3g*(L+L') away from the transformed base points" % (name, vname, ep)})
     rec.update(events=ev, viol=viol, worst=worst)
     return rec
